@@ -9,6 +9,7 @@ CONSTANTS
   TrnDepth = 2
   TrnBranch = 3
   TrnUtts = 3
+  TrnExtra <- TrnExtraNested
   CtmStarts = {0, 5, 120}
   CtmDurs = {0, 5}
   CtmStarts2 = {0, 5, 120}
@@ -39,6 +40,7 @@ INVARIANT TypeOK
 INVARIANT TrnRoundTrip
 INVARIANT TrnNoDanglingAlt
 INVARIANT TrnStackBounded
+INVARIANT TrnDepthBounded
 INVARIANT TrnLexShape
 INVARIANT TrnFirstFlat
 INVARIANT CtmRoundTrip
